@@ -431,7 +431,7 @@ fn file_cases(tier: Tier) -> Vec<(String, Vec<u8>)> {
         v.push((format!("program-{i}"), p.as_bytes().to_vec()));
     }
     // invalid UTF-8 mutations of the examples, and the examples themselves
-    if let Ok(rd) = std::fs::read_dir(format!("{}/examples", crate::infra::REPO_DIR)) {
+    if let Ok(rd) = std::fs::read_dir(format!("{}/examples", crate::infra::repo_dir())) {
         let mut paths: Vec<_> = rd.filter_map(|e| e.ok()).map(|e| e.path()).collect();
         paths.sort();
         for p in paths {
